@@ -426,11 +426,9 @@ func (f *Fixture) Eject(w int, bytes int) {
 // EjectViaLoop posts a sendEarly request and lets worker w's real loop consume it (case body incl. wg.Done).
 func (f *Fixture) EjectViaLoop(w int, bytes int) {
 	f.mustHandler()
-	var wg sync.WaitGroup
-	wg.Add(1)
-	f.Coll.VerifSignalSendEarly(w, bytes, &wg)
+	wait := f.Coll.VerifPostSendEarly(w, bytes)
 	f.Coll.VerifWorkerRunPending(w)
-	wg.Wait()
+	wait()
 	f.after(w)
 }
 
